@@ -10,13 +10,40 @@ theorem forall_u8_of_nat {P : UInt8 → Prop} (h : ∀ n : Nat, n < 256 → P (U
   have := h c.toNat (UInt8.toNat_lt c)
   rwa [UInt8.ofNat_toNat] at this
 
-set_option maxRecDepth 100000 in
-theorem upperRune_ascii (b : UInt8) : b < 0x80 → upperRune b.toNat = some (asciiUpper b).toNat ∧ asciiUpper b < 0x80 := by
-  revert b; apply forall_u8_of_nat; decide
+theorem u8_lt_iff (a b : UInt8) : a < b ↔ a.toNat < b.toNat := UInt8.lt_iff_toNat_lt
+theorem u8_le_iff (a b : UInt8) : a ≤ b ↔ a.toNat ≤ b.toNat := UInt8.le_iff_toNat_le
 
-set_option maxRecDepth 100000 in
+theorem upperRune_ascii (b : UInt8) : b < 0x80 → upperRune b.toNat = some (asciiUpper b).toNat ∧ asciiUpper b < 0x80 := by
+  intro hb
+  have hb' : b.toNat < 0x80 := (u8_lt_iff b 0x80).mp hb
+  rw [upperRune_total, toUpperRune_ascii hb']
+  unfold asciiUpper
+  simp only [u8_le_iff, u8_lt_iff]
+  by_cases h : (97 : UInt8).toNat ≤ b.toNat ∧ b.toNat ≤ (122 : UInt8).toNat
+  · have h' : 0x61 ≤ b.toNat ∧ b.toNat ≤ 0x7A := h
+    have hsub : (b - 32).toNat = b.toNat - 32 := by
+      rw [UInt8.toNat_sub_of_le b 32 ((u8_le_iff 32 b).mpr (by show 32 ≤ b.toNat; omega))]; rfl
+    rw [if_pos h, if_pos h', hsub]
+    exact ⟨rfl, by show b.toNat - 32 < 128; omega⟩
+  · have h' : ¬ (0x61 ≤ b.toNat ∧ b.toNat ≤ 0x7A) := h
+    rw [if_neg h, if_neg h']
+    exact ⟨rfl, hb'⟩
+
 theorem lowerRune_ascii (b : UInt8) : b < 0x80 → lowerRune b.toNat = some (asciiLower b).toNat ∧ asciiLower b < 0x80 := by
-  revert b; apply forall_u8_of_nat; decide
+  intro hb
+  have hb' : b.toNat < 0x80 := (u8_lt_iff b 0x80).mp hb
+  rw [lowerRune_total, toLowerRune_ascii hb']
+  unfold asciiLower
+  simp only [u8_le_iff, u8_lt_iff]
+  by_cases h : (65 : UInt8).toNat ≤ b.toNat ∧ b.toNat ≤ (90 : UInt8).toNat
+  · have h' : 0x41 ≤ b.toNat ∧ b.toNat ≤ 0x5A := h
+    have hadd : (b + 32).toNat = b.toNat + 32 := by
+      rw [UInt8.toNat_add]; show (b.toNat + 32) % 256 = _; omega
+    rw [if_pos h, if_pos h', hadd]
+    exact ⟨rfl, by show b.toNat + 32 < 128; omega⟩
+  · have h' : ¬ (0x41 ≤ b.toNat ∧ b.toNat ≤ 0x5A) := h
+    rw [if_neg h, if_neg h']
+    exact ⟨rfl, hb'⟩
 
 theorem decodeRunes_ascii (s : Bytes) (h : ∀ b ∈ s, b < 0x80) : decodeRunes s = s.map (·.toNat) := by
   induction s with
